@@ -22,6 +22,7 @@ DLN == {None}
 DLN3 == {None, 3}
 WT == {TRUE}
 WB == BOOLEAN
+R2 == {ROk, RTemp}
 R3 == {ROk, RPerm, RTemp}
 R4 == {ROk, RPerm, RTemp, RNet}
 Attrs(c) == CASE c = 1 -> {[wrapped |-> TRUE, label |-> "A", dl |-> d, gated |-> g] : d \in DL1, g \in Gates}
